@@ -146,11 +146,15 @@ int main(int argc, char** argv) {
                 cands.push_back(k + "a");
                 if (!k.empty()) { cands.push_back(k.substr(0, k.size() - 1)); std::string z = k; z.back() = static_cast<char>(z.back() - 1); cands.push_back(z); z.push_back('\xff'); cands.push_back(z); }
                 if (k.size() > 8) { cands.push_back(k.substr(0, 8)); cands.push_back(k.substr(0, 8) + std::string(1, '\0')); }
+                // short keys that land in the border holding the link of k's layer, not in the layer
+                if (k.size() >= 8) { cands.push_back(k.substr(0, 7)); cands.push_back(k.substr(0, 7) + "\xff"); cands.push_back(k.substr(0, 1)); }
             };
             add_around(lk); add_around(rk);
             for (auto& e : tl) add_around(std::get<0>(e));
             cands.push_back("");
             cands.push_back("m");
+            // which candidates become probes varies with the read (deterministically)
+            if (!cands.empty()) std::rotate(cands.begin(), cands.begin() + static_cast<long>(vh::fnv(scan_line.data(), scan_line.size()) % cands.size()), cands.end());
             std::vector<std::string> probes;
             for (auto& c : cands) {
                 if (probes.size() >= nprobe) break;
@@ -194,10 +198,12 @@ int main(int argc, char** argv) {
                 cands.push_back(k + "a");
                 if (!k.empty()) { cands.push_back(k.substr(0, k.size() - 1)); std::string z = k; z.back() = static_cast<char>(z.back() - 1); cands.push_back(z); z.push_back('\xff'); cands.push_back(z); }
                 if (k.size() > 8) { cands.push_back(k.substr(0, 8)); cands.push_back(k.substr(0, 8) + std::string(1, '\0')); }
+                if (k.size() >= 8) { cands.push_back(k.substr(0, 7)); cands.push_back(k.substr(0, 7) + "\xff"); cands.push_back(k.substr(0, 1)); }
             };
             add_around(lk); add_around(rk);
             for (auto& e : tl) add_around(std::get<0>(e));
             cands.push_back("m");
+            if (!cands.empty()) std::rotate(cands.begin(), cands.begin() + static_cast<long>(vh::fnv(w[3].data(), w[3].size()) % cands.size()), cands.end());
             std::vector<std::string> probes;
             for (auto& c : cands) {
                 if (probes.size() >= nprobe) break;
@@ -476,6 +482,30 @@ int main(int argc, char** argv) {
             r << "live " << (vh::ledger().n_aligned - base_n) << " " << (vh::ledger().bytes_aligned - base_bytes)
               << " reach " << (reach_nodes + reach_vals) << " " << reach_bytes << " errs " << vh::ledger().errors;
             if (vh::ledger().errors) r << " first: " << vh::ledger().first_error;
+        } else if (op == "flipcheck" && w.size() == 4) {
+            // flipcheck <sess> <storage> <key>: overwrite the (out-of-line) value of an existing key by an
+            // inline, pointer-sized one. Only the representation of the value changes: no node version
+            // may move. The generator follows this with an ordinary put of the same key.
+            std::string n, k;
+            vh::unhex(w[2], n); vh::unhex(w[3], k);
+            Token t = g_sessions.count(w[1]) ? g_sessions[w[1]] : nullptr;
+            std::pair<char*, std::size_t> g{};
+            if (t == nullptr) r << "no-session";
+            else if (get<char>(n, k, g) != status::OK) r << "absent";
+            else {
+                auto vb = version_snapshot(n);
+                static std::uintptr_t ctr = 0x1000;
+                std::uintptr_t x = (ctr += 16);
+                auto rc = put<std::uintptr_t>(t, n, k, &x, sizeof(x));
+                auto va = version_snapshot(n);
+                std::size_t changed = 0;
+                for (auto& e : va) {
+                    auto it = vb.find(e.first);
+                    if (it == vb.end() || it->second != e.second) ++changed;
+                }
+                r << st(rc) << " vchg " << (changed == 0 && va.size() == vb.size() ? "ok" : "BAD");
+                if (changed) r << "(" << changed << " changed)";
+            }
         } else if (op == "nvcheck") {
             // re-read the stable version of every collected node: at least one must differ
             std::size_t stale = 0;
